@@ -48,6 +48,12 @@ type c18WebCase struct {
 	Strict bool      `json:"strict"` // client.StrictMode
 	Cache  bool      `json:"cache"`  // put the production CachingRoundTripper in front of the network (http/engine.go does when enabled)
 	Script []c18Resp `json:"script"` // i-th outbound request gets Script[i]; beyond the script: 404
+	// Order is the life cycle of the resolver relative to the node's HTTP client configuration (http/engine.go configureClient
+	// sets client.DefaultCachingTransport = client.NewCachingTransport(...) when the cache is enabled; cmd/root.go registers the
+	// HTTP engine last, so vdr.Module.Configure creates the resolver BEFORE that happens):
+	// "" / "after": transport installed, then NewResolver() · "before": NewResolver() first, transport (re)configured afterwards ·
+	// "replaced": installed, NewResolver(), then configured once more.
+	Order string `json:"order,omitempty"`
 }
 
 // ---------------------------------------------------------------------------------------------------------------------
@@ -581,6 +587,7 @@ func c18GenWeb(t *rapid.T) c18WebCase {
 		Raw:    rapid.IntRange(0, 11).Draw(t, "raw") == 0,
 		Strict: rapid.IntRange(0, 3).Draw(t, "strict") != 0,
 		Cache:  rapid.Bool().Draw(t, "cache"),
+		Order:  rapid.SampledFrom([]string{"before", "after", "replaced", "before"}).Draw(t, "order"),
 	}
 	c.ID = c18GenID(t, c.Raw)
 	n := rapid.SampledFrom([]int{1, 1, 1, 2, 2, 3, 4}).Draw(t, "nresp")
@@ -735,15 +742,43 @@ func c18Resolve(x *h.Ctx, ref c18Ref, d did.DID, c c18WebCase, judged bool) {
 
 	oldT, oldStrict := client.DefaultCachingTransport, client.StrictMode
 	defer func() { client.DefaultCachingTransport, client.StrictMode = oldT, oldStrict }()
-	if c.Cache {
-		client.DefaultCachingTransport = client.NewCachingTransport(nw, 10*1024*1024)
-		x.Class("net:caching-transport")
-	} else {
-		client.DefaultCachingTransport = nw
+	// what http.Engine.configureClient does with cache.maxbytes > 0 (the default, 10 MB) resp. = 0
+	configureClient := func() {
+		client.StrictMode = c.Strict
+		if c.Cache {
+			client.DefaultCachingTransport = client.NewCachingTransport(nw, 10*1024*1024)
+		}
 	}
+	client.DefaultCachingTransport = nw // state after package init: a plain (non caching) transport
 	client.StrictMode = c.Strict
+	var rs *Resolver
+	order := c.Order
+	switch order {
+	case "before":
+		rs = NewResolver()
+		configureClient()
+	case "replaced":
+		configureClient()
+		rs = NewResolver()
+		configureClient()
+	default:
+		order = "after"
+		configureClient()
+		rs = NewResolver()
+	}
+	cacheClass := "cache-off"
+	if c.Cache {
+		cacheClass = "cache-on"
+		x.Class("net:caching-transport")
+	}
+	x.Class("lifecycle:resolver-" + order + "-client-config:" + cacheClass)
+	for i, s := range c.Script {
+		if s.Status >= 300 && s.Status < 400 && i == 0 {
+			x.Class("lifecycle:" + order + ":" + cacheClass + ":redirect:" + s.Loc)
+		}
+	}
 
-	doc, md, err := NewResolver().Resolve(d, nil)
+	doc, md, err := rs.Resolve(d, nil)
 	traffic := nw.Traffic()
 	h.Count("C18", x.Unit, "outbound_requests", len(traffic))
 
